@@ -10,7 +10,7 @@ PROP = {'drive': ['Subset'], 'modules': ['SfntV.Props.C10'],
                        'C10_cff_private',
                        'C10_layout_gpos',
                        'C10_layout_gsub_indices',
-                       'C10_closure_rules_partial',
+                       'C10_closure_rules',
                        'C10_closure_total',
                        'C10_any_order',
                        'C10_layout_gsub',
@@ -18,19 +18,12 @@ PROP = {'drive': ['Subset'], 'modules': ['SfntV.Props.C10'],
                        'C10_writable_coverage',
                        'C10_writable_encoding',
                        'C10_writable_encoding_witness',
-                       'C10_closure_rules_full_false',
                        'C10_nonvacuous'],
  'areas': [('subset', 400, 6000)],
  'rule': 'distinct case lines (abstract font: kind ttf/cff/cid, composite graph, widths, names, cmap subtables, '
          'private dicts/FDSelect/encoding/CIDs, GSUB 1.1/4.1, GPOS 2.1, features; requested glyph list; for '
          'subset.run the glyph order Go produced as oracle); non-trivial = at least 2 requested glyphs',
- 'partial': ['C10_closure_rules_full (every GSUB rule whose inputs are all in the FINAL subset has its outputs in '
-             'the subset) is false for the code: glyphs that enter only as composite components, after '
-             'SubsetGsub has run, can complete a rule (Lean witness C10_closure_rules_full_false; known finding '
-             'C10-gsub-over-components). Proved instead: C10_closure_rules_partial (the text glyphs = glyph list '
-             'when SubsetGsub returns are closed under every rule, for every rule order) and C10_layout_gsub '
-             '(rules are kept/dropped relative to the text glyphs).',
-             'C10_writable is proved only as writer PRECONDITIONS on the model (C10_writable_glyphs, '
+ 'partial': ['C10_writable is proved only as writer PRECONDITIONS on the model (C10_writable_glyphs, '
              'C10_writable_coverage: coverage indices handed out by sortedByNewGid increase strictly with the new '
              'glyph id; C10_writable_encoding: CFF encoding contiguous when retained encoded glyphs come first; '
              'cmap keys unchanged by C10_cmap); the writer itself is not modelled here (see C01). Tie: V stream '
@@ -38,9 +31,10 @@ PROP = {'drive': ['Subset'], 'modules': ['SfntV.Props.C10'],
              'stream subset.run, whose Go side lists rebuilt GSUB entries in coverage-index order while the model '
              'lists them by glyph id. Outside the hypothesis of C10_writable_encoding the code fails: known finding '
              'C10-cff-encoding-order (DESIGN #38), Lean witness C10_writable_encoding_witness',
-             'C10_closure_total shows that a legal pop sequence exists and the step-2 budget suffices (the model '
-             'never answers err:order for a suitable oracle); that the outcome is .ok rather than .panic exactly '
-             'when all reachable glyph ids are in range is checked by correspondence (malformed stream), not proved'],
+             'C10_closure_total shows that legal pop sequences exist for every choice of rule orders, the step-2 '
+             'budget suffices and the outer loop stops (the model never answers err:order for a suitable oracle); '
+             'that the outcome is .ok rather than .panic exactly when all reachable glyph ids are in range is '
+             'checked by correspondence (malformed stream), not proved'],
  'modelled_not_verified': ['cff.Outlines.Subset (cff/subset.go) is driven separately (V stream subset.cffrun) against the same '
                            'SubsetCFF model with cmap and layout tables removed',
                            'coverage-index assignment of the rebuilt GSUB subtables (index = rank of the new glyph '
@@ -48,13 +42,14 @@ PROP = {'drive': ['Subset'], 'modules': ['SfntV.Props.C10'],
                            'lists; validity of the tables is exercised by subset.writable',
                            'cmap Encode/Get round trip, Clone, LookupMetaInfo and ScriptList are copied verbatim and '
                            'not modelled; glyph.ID is uint16: fonts with < 65536 glyphs'],
- 'assumptions': ['Dom: glyph list duplicate-free (theorems need only that; "starts with 0" is not used), all glyph '
+ 'assumptions': ['Model of subset.go WITH patches/C10/02 (joint closure of GSUB outputs and composite components, '
+                 'applied uncommitted in /repo). Dom: glyph list duplicate-free (theorems need only that; "starts with 0" is not used), all glyph '
                  'ids and component ids < number of glyphs (otherwise the code panics; the model says panic and '
                  'the harness checks it), Widths/Names/FDSelect/GIDToCID cover all glyphs, FDSelect < number of '
                  'private dicts, only GSUB 1.1/4.1 and GPOS 2.1 subtables, no GDEF; cmap subtables in the decoded (Unicode) view '
                  'cmap.Table.Get gives, Macintosh-platform subtables included (after repair patches/C10/01)',
-                 'o.rules is a permutation of the rule list (Go ranges over coverage maps); o.pops is the sequence '
-                 'of keys pop(todo) returned']}
+                 'o.rules k is a permutation of the rule list in round k of the outer loop (Go ranges over coverage '
+                 'maps); o.pops[k] is the sequence of keys pop(todo) returned in round k']}
 
 LEVEL = {'text': 'Proof (partial): for every abstract font, every duplicate-free glyph list and every iteration order '
          'of the Go maps, the Lean model of the repaired (*Font).Subset puts original glyph glyphs[i] at position '
@@ -62,11 +57,12 @@ LEVEL = {'text': 'Proof (partial): for every abstract font, every duplicate-free
          'under composite components, re-points every component reference to the index that holds the same '
          'original glyph, maps code -> n in every cmap subtable iff the original maps code to the glyph now at n '
          '(no other character mapped), transfers CIDs, the built-in encoding, private dictionaries and font matrices, keeps GPOS pairs exactly among '
-         'retained glyphs under the new numbering, keeps feature lists and lookup indices of GSUB/GPOS, and '
-         'reaches a GSUB-rule-closed glyph list at the end of SubsetGsub. The model is tied to subset.go by '
+         'retained glyphs under the new numbering, keeps feature lists and lookup indices of GSUB/GPOS, keeps exactly the GSUB rules whose '
+         'glyphs are all retained (same order, renumbered), is closed under every GSUB rule, terminates for every '
+         'iteration order, and retains the same glyph set for every order. The model is tied to subset.go by '
          'output-exact correspondence of Subset results on generated TrueType (nested/shared composites), CFF and '
          'CID-keyed fonts with format 4/12 cmaps, GSUB 1.1/4.1 and GPOS 2.1, using the glyph order Go produced as '
-         'order oracle, and every clause (also the unproved GSUB-rule clause) is evaluated '
+         'order oracle, and every clause  is evaluated '
          'directly on the Go output. Six defects of subset.go were found and repaired on the way; two more are '
          'recorded as open findings.',
  'note': 'Trusted: Lean kernel + 3 standard axioms; hand-written model of subset.go checked by sampled '
